@@ -74,6 +74,17 @@ CHECKS['C10'] = dict(
          'nothing else writes those fields.',
     design='4/C10', engine='sa.sx + sa.match')
 
+CHECKS['C15'] = dict(
+    technique='gated value numbering of the rule classes and Timer (sensor reads inlined, reduction loops summarised as '
+              'canonical atoms); windows compared as exhaustive sign/truth tables over comparison atoms; proposal formulas '
+              'as canonical terms; cross-module polynomial identity between the StartLimitCurrent root and the motor laws '
+              'extracted from dc_motor.py',
+    text='Decides, for all rule parameters and states over the reals, the activity window (operators, inclusive ends) and '
+         'the proposal formula of ConstantPWM/Timer, ReachAngularPosition (static error), StartProportionalToAngularPosition '
+         '(minimum duty cycle, ramp, missing-parameter error) and StartLimitCurrent, and that the duty cycle StartLimitCurrent '
+         'proposes makes the motor\'s own current law yield exactly the limit current. Clipping and arbitration are C14.',
+    design='4/C15', engine='sa.sx + sa.loops + sa.match')
+
 NOT_APPLICABLE = {
     'C04': 'limit statement (error = O(dt) as dt -> 0) against an analytic oracle; no sound static argument in reach '
            'bounds a global discretisation error. Its code-shape ingredients (consistent first-order integrator, torque '
